@@ -79,7 +79,7 @@ class Obligation:
                  backend=None, timeout_q=240, timeout_t=1800, mem_gb=8, malloc_may_fail=False,
                  desc="", bounds_q="", bounds_t="", stubs=(), functions=(), replay=True,
                  outside="", extra_src=(), tiers=("quick", "thorough"), leak_check=False,
-                 native_units=None, expect_witness=True, fp_restrict=()):
+                 native_units=None, expect_witness=True, fp_restrict=(), replace_calls=()):
         self.name = name; self.src = src; self.func = func; self.lib = lib
         self.units = list(units); self.defs = list(defs); self.qdefs = list(qdefs)
         self.tdefs = list(tdefs)
@@ -94,6 +94,7 @@ class Obligation:
         self.native_units = native_units
         self.expect_witness = expect_witness
         self.fp_restrict = list(fp_restrict)
+        self.replace_calls = list(replace_calls)
 
 
 def cflags(lib, extra_defs):
@@ -167,6 +168,15 @@ class Runner:
         r = sh(["goto-cc", "-o", gb, "--function", ob.func] + objs)
         if r.returncode != 0:
             return None, "link failed:\n" + r.stdout[-3000:]
+        if ob.replace_calls:
+            gb3 = os.path.join(d, "harness_rc.gb")
+            cmd = ["goto-instrument"]
+            for (a, b) in ob.replace_calls:
+                cmd += ["--replace-calls", "%s:%s" % (a, b)]
+            r = sh(cmd + [gb, gb3])
+            if r.returncode != 0:
+                return None, "replace-calls failed:\n" + r.stdout[-3000:]
+            gb = gb3
         if ob.fp_restrict:
             gb2 = os.path.join(d, "harness_fp.gb")
             cmd = ["goto-instrument"]
